@@ -126,17 +126,19 @@ def isUnspentOutpoint (st : St) (t n : Nat) : Bool := (unspent st).any fun o => 
 
 def outpoints (b : TxBody) : List (Nat × Nat) := b.ins.map fun i => (i.1, i.2.1)
 
-/-- output rows of a newly stored transaction (`store()`) -/
-def newOuts (txid : Nat) (b : TxBody) : List OutRec :=
+/-- output rows of a newly stored transaction (`store()`): a row whose outpoint a stored input
+refers to already (the transaction is stored again after it had been deleted, and a later
+transaction consumes its output) is spent from the start -/
+def newOuts (st : St) (txid : Nat) (b : TxBody) : List OutRec :=
   ((List.range b.outs.length).zip b.outs).map fun p =>
-    { txid := txid, n := p.1, value := p.2.1, key := p.2.2, spent := false }
+    { txid := txid, n := p.1, value := p.2.1, key := p.2.2, spent := spentInDb st txid p.1 }
 
-/-- the guard of `send`: the transaction id is new (no stored row or stored input carries it),
-the inputs are distinct outpoints, the keys named by the outputs exist.  The inputs need NOT be
+/-- the guard of `send`: no stored row carries the transaction id (stored inputs may: the
+transaction was deleted and is stored again), the inputs are distinct outpoints, the keys named by the outputs exist.  The inputs need NOT be
 unspent: a transaction object that was built earlier and is sent now (a replacement of a
 transaction sent in the meantime) may consume outputs that a stored transaction consumes too. -/
 def sendGuard (st : St) (txid : Nat) (b : TxBody) : Bool :=
-  !hasTx st txid && st.ins.all (fun i => i.ptx != txid) &&
+  !hasTx st txid &&
   decide (outpoints b).Nodup &&
   b.outs.all (fun o => match o.2 with | some k => st.keys.contains k | none => true)
 
@@ -155,7 +157,7 @@ def send (st : St) (txid : Nat) (b : TxBody) : St × Status :=
     (balanceUpdate { st with
       txs := st.txs ++ [{ txid := txid, conf := 0, body := some b }]
       ins := st.ins ++ inRecs txid b
-      outs := (st.outs ++ newOuts txid b).map (setSpent true (outpoints b)) }, .ok)
+      outs := (st.outs ++ newOuts st txid b).map (setSpent true (outpoints b)) }, .ok)
   else (st, .refused)
 
 /-- the outpoints a transaction consumes that no OTHER stored transaction consumes -/
